@@ -226,3 +226,4 @@ _extend('C10', 'ADDED (unit U-stmtkeys): the statement-level duplicate check of 
 _extend('C18', 'ADDED (unit P-data): a successful read_data leaves no table whose user-defined indexes lag behind the rows it loaded (the index-driven half of the round trip for the binary and compressed loaders; fix 065c2cf2). Repaired on the way: load_json ignored the prefix length of index columns (fix f8a62156). Still lost by the formats (observed, DESIGN 9c): constraint and DEFAULT definitions, the prefix length in the binary formats, spatial indexes, views, tables outside the current schema.')
 _extend('C18', 'ADDED (unit N-trunc, bounded): the stored form of a CHAR(n) value is exactly n bytes and a fixed point of the normalization every reload applies again (fix 27263297; Kani, strings of up to 3 bytes, n <= 4).')
 _extend('C10', 'ADDED (unit K-alterkey): ALTER TABLE ADD PRIMARY KEY / ADD UNIQUE is refused exactly when the existing rows violate the constraint (fix fb84ff1a: it used to be accepted). ADD CHECK: checked against the existing rows and enforced afterwards since fix 52830b89 (not under contract: expression evaluation).')
+_extend('C02', 'ADDED (unit S-local): in a join the indexes of one table are offered only the conjuncts of the WHERE clause that name no column qualified with another table or alias (fix 92c7d1d9: `t2.a = 3` used to be answered from an index on `t1.a`).')
